@@ -263,6 +263,21 @@ func nvarCases(r *rand.Rand, tier string) []core.Case {
 		s.patchNext(head, d)
 		s.full([]byte("Var"), g, []byte("again"), true, 0xFFFFFF, 0)
 		cs = append(cs, nvarCase("samename", s.finish(8)))
+		// names that agree in a long prefix and differ only behind it, around every length at which a
+		// bounded file name could be cut (extract keeps 64 name bytes and appends the entry offset): same
+		// GUID, values of different content and of different length; also a link chain under a long name
+		// (seeded defect c07-3: suffix added before the bound is applied)
+		for _, pl := range []int{30, 62, 63, 64, 65, 72, 127, 200, 255} {
+			s = &nvStore{}
+			prefix := strings.Repeat("N", pl)
+			s.full([]byte(prefix+"-first"), g, []byte("value of the first"), true, 0xFFFFFF, 0)
+			s.full([]byte("Between"), g, nvData(r), true, 0xFFFFFF, 0)
+			s.full([]byte(prefix+"-second"), g, []byte("the second one has a longer value"), r.Intn(2) == 0, 0xFFFFFF, 0)
+			head := s.full([]byte(prefix), g, []byte("old"), true, 0xFFFFFF, 0)
+			d := s.dataOnly([]byte("new value"), 0xFFFFFF)
+			s.patchNext(head, d)
+			cs = append(cs, nvarCase("longprefix", s.finish(8)))
+		}
 		// two variables whose values are stores themselves, holding entries of the same name
 		for k := 0; k < 2; k++ {
 			g2 := nvGuid(r)
